@@ -3,15 +3,16 @@
 print which checks raise an alarm (every alarm here is a false alarm unless the patch is not
 really behaviour preserving)"""
 import sys, os, subprocess, json, glob
-ROOT = '/verif'
+ROOT = os.path.dirname(os.path.dirname(os.path.abspath(__file__)))
+REPO = os.environ.get('VERIF_REPO', '/repo')
 dirs = sys.argv[1:] or sorted(glob.glob(ROOT + '/benign/*/'))
 ALL = ['C%02d' % i for i in range(1, 21)]
 for d in dirs:
     d = d.rstrip('/')
     patch = os.path.join(d, 'patch.diff')
     name = os.path.basename(d)
-    assert subprocess.run(['git', '-C', '/repo', 'status', '--porcelain', '--untracked-files=no'], capture_output=True, text=True).stdout.strip() == '', '/repo dirty'
-    r = subprocess.run(['git', '-C', '/repo', 'apply', patch])
+    assert subprocess.run(['git', '-C', REPO, 'status', '--porcelain', '--untracked-files=no'], capture_output=True, text=True).stdout.strip() == '', 'repo dirty'
+    r = subprocess.run(['git', '-C', REPO, 'apply', patch])
     if r.returncode != 0:
         print(name, 'PATCH DOES NOT APPLY'); continue
     try:
@@ -25,4 +26,5 @@ for d in dirs:
                 res[p] = 'machinery broken'
         print(name, json.dumps(res), flush=True)
     finally:
-        subprocess.run(['git', '-C', '/repo', 'checkout', '--', '.'])
+        subprocess.run(['git', '-C', REPO, 'checkout', '--', '.'])
+        subprocess.run('git -C ' + ROOT + ' checkout -- evidence lean/Bma400/Generated.lean lean/Bma400/GeneratedEnc.lean lean/Bma400/GeneratedBld.lean lean/Bma400/GeneratedApi.lean lean/Bma400/GeneratedFrames.lean', shell=True)
